@@ -72,6 +72,20 @@ def main(argv=None):
         if args.what == 'selftest':
             from pyvc import selftest
             return selftest.main(args.rest)
+        if args.what == 'baseline':
+            # records which obligations are discharged on the current (pinned, repaired) tree: a later failure of one of them
+            # without a concrete input is reported as a violation (no-failing-input-found); a failure of an obligation that
+            # was never discharged is an engine limitation (undecided)
+            from pyvc import runner
+            props = args.rest or sorted({p for ci in runner.load_contracts().values() for p in ci.props})
+            path = os.path.join(VERIF, 'baseline_obligations.json')
+            data = json.load(open(path)) if os.path.exists(path) else {}
+            for p in props:
+                res = runner.run_property(p, 'quick', seed)
+                data[p] = res['discharged_ids']
+                print(p, len(data[p]), 'obligation ids')
+            json.dump(data, open(path, 'w'), indent=0, sort_keys=True)
+            return 0
         if args.what == 'all':
             from pyvc import runner
             props = sorted({p for ci in runner.load_contracts().values() for p in ci.props})
